@@ -1,4 +1,5 @@
 import Model.Retrieve
+import Model.Submit
 
 /-!
 # A full node that syncs from the DA layer only, across restarts
@@ -110,12 +111,30 @@ def restartCrash (c : Cfg) (before : Store) (ws : List SW) (k : Nat) : Option (N
 
 /-! ## histories: what happens to the node and to the DA layer, one operation at a time -/
 
+/-- the DA-inclusion marks one scan sets (`headerCache/dataCache.SetDAIncluded`: every accepted blob at a passed DA
+height, seen or not), latest first -/
+def marksOf (c : Cfg) (nd : Node) (v : Retrieve.DAView) : List (Bytes × Nat) × List (Bytes × Nat) :=
+  let r := Retrieve.scan c.sync.proposerAddr (scanFuel nd.cursor v.top) (rnodeOf nd) v [] []
+  (r.1.hMarks, r.1.dMarks)
+
+/-- `NewManager`: the DA-included height is read from the metadata and raised to `initialHeight - 1` -/
+def daIncOf (c : Cfg) (st : Store) : Nat :=
+  let di0 := match st.getMeta Submit.daIncKey with
+    | some b => if b.length = 8 then Bytes.unLe b else 0
+    | none => 0
+  if c.sync.initialHeight > 1 ∧ di0 < c.sync.initialHeight - 1 then c.sync.initialHeight - 1 else di0
+
+/-- the view `DAIncluderLoop` has of the node: store, marks, DA-included height, `SetFinal` log -/
+def toA (st : Store) (hm dm : List (Bytes × Nat)) (di : Nat) (fin : List Nat) : Submit.ANode :=
+  { n := { store := st }, hMarks := hm, dMarks := dm, daInc := di, finals := fin }
+
 inductive HOp
   | place (da : Nat) (b : Bytes) (o : Retrieve.Oracle)   -- somebody's blob is included at DA height `da`
   | head (n : Nat)                                        -- the DA layer has produced the heights below `n`
   | script (da : Nat) (l : List Retrieve.Fetch)           -- outcomes of the next fetch attempts at DA height `da`
-  | run                                                   -- both loops run until quiescent
+  | run                                                   -- all loops run until quiescent
   | runHeld (hdrFirst : Bool) (hold : Nat)                -- ... in the schedule `sched`, `hold` events never handled
+  | p2p (es : List Retrieve.Event)                        -- headers / data handed over by the P2P store loops
   | restart                                               -- clean stop and restart
   | crash (k : Nat)                                       -- the process dies after `k` of the last writes; restart
   deriving Inhabited
@@ -127,11 +146,24 @@ structure HSt where
   before : Store := {}
   ws : List SW := []
   ok : Bool := true          -- `NewManager` succeeded at the last (re)start
+  hMarks : List (Bytes × Nat) := []      -- `headerCache.daIncluded` (header hash ↦ DA height), latest first
+  dMarks : List (Bytes × Nat) := []      -- `dataCache.daIncluded` (data commitment ↦ DA height)
+  daInc : Nat := 0                        -- `daIncludedHeight`
+  finals : List Nat := []                 -- `SetFinal` calls received by the execution layer since the last start
   deriving Inhabited
 
-def started (s : HSt) (disk : Store) : Option (Node × List SW) → HSt
+/-- `DAIncluderLoop` runs until it cannot advance (`Submit.includerIter`); its writes follow those of the sync loop -/
+def includeSt (s : HSt) : HSt :=
+  let r := Submit.includerIter (toA s.nd.full.store s.hMarks s.dMarks s.daInc s.finals)
+  { s with nd := { s.nd with full := { s.nd.full with store := r.1.n.store } },
+           daInc := r.1.daInc, finals := r.1.finals, ws := s.ws ++ r.2 }
+
+/-- after `NewManager`: the marks come from the cache files (clean stop) or are gone (crash) -/
+def started (c : Cfg) (s : HSt) (disk : Store) (keepMarks : Bool) : Option (Node × List SW) → HSt
   | none => { s with ok := false }
-  | some (nd, ws) => { s with nd := nd, before := disk, ws := ws, ok := true }
+  | some (nd, ws) =>
+    { s with nd := nd, before := disk, ws := ws, ok := true, daInc := daIncOf c nd.full.store, finals := [],
+             hMarks := if keepMarks then s.hMarks else [], dMarks := if keepMarks then s.dMarks else [] }
 
 def hstep (c : Cfg) (s : HSt) : HOp → HSt
   | .place da b o => { s with v := { s.v with placed := s.v.placed ++ [(da, b, o)], top := max s.v.top (da + 1) } }
@@ -140,16 +172,24 @@ def hstep (c : Cfg) (s : HSt) : HOp → HSt
   | .run =>
     if !s.ok then s else
     let r := run c s.nd s.v
-    { s with nd := r.1, v := r.2.1, before := s.nd.full.store, ws := r.2.2 }
+    let m := marksOf c s.nd s.v
+    includeSt { s with nd := r.1, v := r.2.1, before := s.nd.full.store, ws := r.2.2,
+                       hMarks := m.1 ++ s.hMarks, dMarks := m.2 ++ s.dMarks }
   | .runHeld hf hold =>
     if !s.ok then s else
     let r := runHeld c s.nd s.v hf hold
-    { s with nd := r.1, v := r.2.1, before := s.nd.full.store, ws := r.2.2 }
-  | .restart => if !s.ok then s else started s s.nd.full.store (restartClean c s.nd)
-  | .crash k => if !s.ok then s else started s (s.before.applyPrefix k s.ws) (restartCrash c s.before s.ws k)
+    let m := marksOf c s.nd s.v
+    includeSt { s with nd := r.1, v := r.2.1, before := s.nd.full.store, ws := r.2.2,
+                       hMarks := m.1 ++ s.hMarks, dMarks := m.2 ++ s.dMarks }
+  | .p2p es =>
+    if !s.ok then s else
+    let f := feed c s.nd.full es
+    includeSt { s with nd := { s.nd with full := f.1 }, before := s.nd.full.store, ws := f.2 }
+  | .restart => if !s.ok then s else started c s s.nd.full.store true (restartClean c s.nd)
+  | .crash k => if !s.ok then s else started c s (s.before.applyPrefix k s.ws) false (restartCrash c s.before s.ws k)
 
 /-- the node of a first start on an empty store, with an empty DA layer -/
-def hinit (c : Cfg) : HSt := started {} {} (start c {} {})
+def hinit (c : Cfg) : HSt := started c {} {} false (start c {} {})
 
 def hrun (c : Cfg) (ops : List HOp) : HSt := ops.foldl (hstep c) (hinit c)
 
